@@ -29,7 +29,7 @@ IDS = ["aw-watcher-window_host", "aw-watcher-afk_host", "ünï-日本", "with sp
 
 
 def plan(tier):
-    return dict(workers=16, cases=640 if tier == "quick" else 20_000, time_s=45 if tier == "quick" else 900)
+    return dict(workers=16, cases=3_200 if tier == "quick" else 60_000, time_s=45 if tier == "quick" else 900)
 
 
 def setup(ctx):
